@@ -586,6 +586,14 @@ func expandParameterOrResponse(input interface{}, resolver *schemaLoader, basePa
 			} else {
 				sch.Ref = rebasedRef
 			}
+
+			// the $ref is now expressed relative to the root document: it must
+			// not be read again relative to the current document
+			if ref != nil {
+				*ref = Ref{}
+			}
+
+			return nil
 		}
 	}
 
